@@ -9,10 +9,13 @@ import numpy as np
 import emit as E
 
 PROP = 'C03'
-COQ_IMPORTS = ['PT.Base.Scalar', 'PT.Base.BigSum', 'PT.Base.Mx', 'PT.Model.Tensor', 'PT.Model.MPSOps', 'PT.Model.MPSOpsReplay']
+COQ_IMPORTS = ['PT.Base.Scalar', 'PT.Base.Field', 'PT.Base.BigSum', 'PT.Base.Mx', 'PT.Model.Tensor', 'PT.Model.MPSOps', 'PT.Model.MPSOpsReplay',
+               'PT.Model.BondOps', 'PT.Model.FromVector']
 COQ_PREAMBLE = E.QC_PREAMBLE + '''
 Definition gmx := @mkmx GIring.
 Definition qmx := @mkmx QIring.
+Definition cmx := @mkmx (Cx QcF).
+Definition cmps := @mkmps (Cx QcF).
 Definition gmps := @mkmps GIring.
 Definition gmpo := @mkmpo GIring.
 Definition Gadd_mps := @o_add_mps GIring.
@@ -34,7 +37,10 @@ FORM = ('E (exact): operands with Gaussian-integer entries |re|,|im| <= 3 (float
         'is evaluated by vm_compute on the same operands and must reproduce every result tensor (values and shapes), every qD, '
         'as_vector(), as_matrix() dense and the sparse path .toarray() exactly; exceptions must coincide with the model refusing. '
         'R (replay) for split_mps_tensor: the recorded split_matrix_svd call (argument matrix, q0, q1 compared exactly with the model\'s '
-        'reshape) and its answer are the oracle of the model at Q[i]; A0, A1 within 1e-9(1+scale) in exact rational arithmetic, qbond exactly')
+        'reshape) and its answer are the oracle of the model at Q[i]; A0, A1 within 1e-9(1+scale) in exact rational arithmetic, qbond exactly. '
+        'R (replay) for MPS.from_vector (d^L <= 16): the recorded numpy.linalg.svd answers and np.argsort answers of every loop iteration are '
+        'the oracles of Model/FromVector.v at Cx QcF; the model must issue its SVD calls with the recorded arguments (1e-9 relative; the '
+        'first one exactly), return qd / every qD exactly and every site tensor within 1e-9 relative (exact rational comparison inside Coq)')
 RULE = ('[extended: operands of different dtypes (float/complex/int, both orders) for every binary operation at L = 1..5; common '
         'scale factors 2^-40 .. 2^40 on operands (E-form, results scaled back exactly) and on split_mps_tensor / from_vector inputs '
         '(relative tolerances); d = 1; all-zero tensors] expression trees over 1-3 operand MPS / MPO: +, -, add_mps/add_mpo with alpha in {1,-1,2,0,1j,-2+1j,..}, @, apply_operator, '
@@ -43,19 +49,25 @@ RULE = ('[extended: operands of different dtypes (float/complex/int, both orders
         'operands, all-zero / charged / disjoint quantum numbers with non-trivial matching boundary charges; merge_*_tensor_pair with '
         'unequal physical dimensions; inputs outside the domain (mismatching boundary charges, qd, length, sparsity violations) must '
         'be rejected by both sides; split_mps_tensor(tol=0)+merge for left/right/sqrt on block-sparse random float tensors (prop 1e-10 '
-        'and replay against the model); from_vector(tol=0) on the implementation only (1e-10). '
+        'and replay against the model); from_vector(tol=0) on the implementation (1e-10) and, for d^L <= 16 (L = 1..4, d = 1..4, real / complex, '
+        'scales 2^-40..2^40, zero vector, product and low-rank vectors, a few tol > 0 for the truncation branch), replayed against the model. '
         'non-trivial = dense form of the result not identically zero; distinct by full input')
 SHARD = 24
 IMPL_PARALLEL = True
 TRUSTED = ['hand-written Gallina mirror Model/MPSOps.v of add_mps, add_mpo, multiply_mpo, apply_operator, MPO.identity, merge_*_tensor_pair, '
            'as_vector, as_matrix (both paths), tied to the code by exact agreement on every generated case',
+           'hand-written Gallina mirror Model/FromVector.v of MPS.from_vector (numpy.linalg.svd and np.argsort as oracles), tied to the code by '
+           'replay of the recorded oracle answers',
            'numpy dense reference (einsum / kron) in harness/props/c03.py (search only)']
 PARTIAL = ('proved for all L >= 1, d, bond profiles and every commutative ring (Properties/C03.v): entrywise and array-level homomorphism '
            'laws for add_mps/add_mpo (alpha, +, -), multiply_mpo, apply_operator, MPO.identity = scale^L * 1, as_vector/as_matrix(dense) '
            'enumerate amplitudes in word order, results well-formed, bond quantum numbers = concatenation / outer sum, '
-           'merge(split A) = A for left/right/sqrt given an exact answer of the block SVD oracle. '
-           'Not proved: sparse as_matrix path = dense path for L >= 2 (proved for L = 1; modelled and compared on every case); '
-           'MPS.from_vector is not modelled (implementation-level check only)')
+           'merge(split A) = A for left/right/sqrt given an exact answer of the block SVD oracle; '
+           'sparse as_matrix path = dense path for every L >= 1 (C03_as_matrix_sparse); '
+           'from_vector(d, n, v, tol=0): for every ordered field, n >= 1, d >= 1, every v of length d^n (zero or not), every answer of the '
+           'argsort oracle and SVD answers with LAPACK shapes and U diag(s) V = M on the calls the loop issues, the model succeeds, the result is '
+           'well-formed with all charges zero and as_vector(result) = v entrywise (C03_from_vector_exact). '
+           'Not proved: nothing about from_vector with tol > 0 (error bound: C13); d = 0 / nsites = 0 raise in the code and are the error value of the model')
 ASSUMPTIONS = ['float64 arithmetic on integers below 2^53 is exact (IEEE 754); numpy einsum/tensordot/block and scipy.sparse products '
                'introduce no rounding on such inputs']
 
@@ -412,6 +424,20 @@ def cases(rng, tier):
                     'cplx': (j + j0) % 2 == 0, 'sexp': sexps[(j + j0 + 1) % len(sexps)], 'valid': True})
     out.append({'kind': 'from_vector', 'seed': 1, 'd': 1, 'L': 3, 'cplx': False, 'sexp': -40, 'valid': True})
     out.append({'kind': 'from_vector', 'seed': 2, 'd': 2, 'L': 3, 'cplx': True, 'sexp': 0, 'zero': True, 'valid': True})
+    # small instances (d^L <= 16) that are also replayed against Model/FromVector.v
+    small = [(2, 1), (2, 2), (2, 3), (2, 4), (3, 2), (3, 1), (1, 3), (4, 2), (4, 1), (1, 1)]
+    for j, (d, L) in enumerate(small if tier != 'search' else small[:4]):
+        out.append({'kind': 'from_vector', 'seed': rng.getrandbits(32), 'd': d, 'L': L, 'cplx': (j + j0) % 2 == 1,
+                    'sexp': sexps[(j + j0) % len(sexps)], 'valid': True})
+    for j, (d, L, shape) in enumerate([(2, 3, 'product'), (2, 4, 'rank2'), (3, 2, 'product'), (2, 2, 'basis'), (2, 4, 'basis'), (4, 2, 'rank2')]):
+        out.append({'kind': 'from_vector', 'seed': rng.getrandbits(32), 'd': d, 'L': L, 'cplx': (j + j0) % 2 == 0, 'sexp': 0,
+                    'shape': shape, 'valid': True})
+    out.append({'kind': 'from_vector', 'seed': 3, 'd': 2, 'L': 2, 'cplx': False, 'sexp': 0, 'zero': True, 'valid': True})
+    out.append({'kind': 'from_vector', 'seed': 4, 'd': 3, 'L': 1, 'cplx': True, 'sexp': 0, 'zero': True, 'valid': True})
+    # truncation branch of the loop (tol > 0): correspondence only, the error bound belongs to C13
+    for j, (d, L, tol) in enumerate([(2, 3, 0.25), (2, 4, 0.0625), (3, 2, 0.5), (2, 4, 0.9)]):
+        out.append({'kind': 'from_vector', 'seed': rng.getrandbits(32), 'd': d, 'L': L, 'cplx': j % 2 == 0, 'sexp': [0, -20, 20, 0][j],
+                    'tol': tol, 'valid': True})
     # inputs outside the domain: both sides must refuse (or both accept: sparsity of site 0 is not checked for L > 1)
     out += invalid_cases(rng, tier)
     return out
@@ -625,20 +651,82 @@ def _impl_split(case):
             'A0': encf(A0), 'A1': encf(A1), 'qbond': [int(x) for x in qb]}
 
 
-def _impl_from_vector(case):
-    import pytenet as ptn
+FV_REPLAY_MAX = 16
+
+
+def _fv_input(case):
     nrng = np.random.default_rng(case['seed'])
-    n = case['d'] ** case['L']
-    v = nrng.standard_normal(n)
-    if case['cplx']:
-        v = v + 1j * nrng.standard_normal(n)
+    d, L = case['d'], case['L']
+    n = d ** L
+
+    def draw(k):
+        x = nrng.standard_normal(k)
+        if case['cplx']:
+            x = x + 1j * nrng.standard_normal(k)
+        return x
+    shape = case.get('shape')
+    if shape == 'product':
+        v = np.ones(1)
+        for _ in range(L):
+            v = np.kron(v, draw(d))
+    elif shape == 'rank2':
+        v = np.ones(1)
+        w = np.ones(1)
+        for _ in range(L):
+            v = np.kron(v, draw(d))
+            w = np.kron(w, draw(d))
+        v = v + w
+    elif shape == 'basis':
+        v = np.zeros(n, dtype=complex if case['cplx'] else float)
+        v[int(nrng.integers(0, n))] = draw(1)[0]
+    else:
+        v = draw(n)
     v = v * 2.0 ** case.get('sexp', 0)
     if case.get('zero'):
         v = np.zeros_like(v)
-    psi = ptn.MPS.from_vector(case['d'], case['L'], v, tol=0)
+    return v
+
+
+def _impl_from_vector(case):
+    import pytenet as ptn
+    import pytenet.mps as pmps
+    import bondops_common as BC
+    v = _fv_input(case)
+    tol = case.get('tol', 0)
+    small = case['d'] ** case['L'] <= FV_REPLAY_MAX
+    res = {}
+    if small:
+        # record the oracle answers: numpy.linalg.svd per iteration, np.argsort inside retained_bond_indices per iteration
+        rec = BC.Recorder()
+        steps = []
+        orig_ret = pmps.retained_bond_indices
+
+        def ret_wrapper(s, t):
+            k0 = len(rec.argsort_calls)
+            sv = [float(x) for x in s]
+            idx = orig_ret(s, t)
+            new = rec.argsort_calls[k0:]
+            steps.append({'s': sv, 'tol': float(t), 'idx': [int(i) for i in idx], 'sort_idx': new[0][1] if new else [],
+                          'n_argsort': len(new)})
+            return idx
+        pmps.retained_bond_indices = ret_wrapper
+        try:
+            with rec.patch_svd():
+                psi = ptn.MPS.from_vector(case['d'], case['L'], v.copy(), tol=tol)
+        finally:
+            pmps.retained_bond_indices = orig_ret
+        res['calls'] = [{'M': encf(a), 'u': encf(u), 's': [float(x) for x in s], 'vt': encf(vt)} for a, u, s, vt in rec.svd_calls]
+        res['steps'] = steps
+        res['A'] = [encf(a) for a in psi.A]
+        res['qd'] = [int(x) for x in psi.qd]
+        res['qD'] = [[int(x) for x in q] for q in psi.qD]
+        res['qD_int'] = all(np.asarray(q).dtype.kind == 'i' for q in psi.qD)
+    else:
+        psi = ptn.MPS.from_vector(case['d'], case['L'], v, tol=tol)
     w = psi.as_vector()
-    return {'err': float(np.max(np.abs(w - v))), 'scale': float(np.max(np.abs(v))), 'nsites': int(psi.nsites),
-            'bond_dims': [int(x) for x in psi.bond_dims], 'qD_lens': [int(len(q)) for q in psi.qD]}
+    res.update({'err': float(np.max(np.abs(w - v))), 'scale': float(np.max(np.abs(v))), 'nsites': int(psi.nsites),
+                'bond_dims': [int(x) for x in psi.bond_dims], 'qD_lens': [int(len(q)) for q in psi.qD]})
+    return res
 
 
 # ----------------------------------------------------------------------------
@@ -764,10 +852,14 @@ def prop(case, r):
             msgs.append('split tensors violate block sparsity')
         return msgs
     if kind == 'from_vector':
-        if r['err'] > 1e-10 * r['scale']:
+        if case.get('tol', 0) == 0 and r['err'] > 1e-10 * r['scale']:
             msgs.append('from_vector(tol=0).as_vector() differs from the vector by %.3g (max |v| = %.3g)' % (r['err'], r['scale']))
         if r['nsites'] != case['L']:
             msgs.append('from_vector returned %d sites' % r['nsites'])
+        if r['bond_dims'] != r['qD_lens'] or r['bond_dims'][0] != 1 or r['bond_dims'][-1] != 1:
+            msgs.append('from_vector: bond dimensions %s, quantum number lists of lengths %s' % (r['bond_dims'], r['qD_lens']))
+        if 'qD' in r and (any(x != 0 for q in r['qD'] for x in q) or any(x != 0 for x in r['qd']) or not r['qD_int']):
+            msgs.append('from_vector: quantum numbers are not all (integer) zero')
         return msgs
     # expression cases
     L, d = case['L'], case['d']
@@ -876,7 +968,7 @@ def _lets(case):
 def coq(case, r):
     kind = case['kind']
     if kind == 'from_vector':
-        return None
+        return _coq_from_vector(case, r)
     if kind == 'split':
         return _coq_split(case, r)
     if kind == 'merge_mps':
@@ -922,6 +1014,61 @@ def _coq_split(case, r):
         E.zlist(c['qb']), qs(decf(r['A0'])), qs(decf(r['A1'])), E.zlist(r['qbond']), E.qc(tol))
 
 
+def _c(s):
+    return s.replace('(mkmx ', '(cmx ')
+
+
+def _fv_ambiguous(case, r):
+    """tol > 0 only: a cumulative weight within 1e-12 of the tolerance may be decided differently by binary64 and exact
+    arithmetic; tol = 0: `cum > 0` is decided identically (no underflow in the generated range)"""
+    import bondops_common as BC
+    from fractions import Fraction
+    if case.get('tol', 0) == 0:
+        return False
+    for st in r.get('steps', []):
+        if not any(st['s']):
+            continue
+        kept, dist = BC.exact_retained(st['s'], st['sort_idx'], st['tol'])
+        if dist is not None and dist < Fraction(1, 10 ** 12):
+            return True
+    return False
+
+
+def _coq_from_vector(case, r):
+    """form R: Model/FromVector.v runs with the recorded numpy.linalg.svd / np.argsort answers as its oracles (Cx QcF)"""
+    from fractions import Fraction
+    d, L = case['d'], case['L']
+    if d ** L > FV_REPLAY_MAX:
+        return None
+    v = _fv_input(case)
+    vec = E.lst([E.qi(x) for x in v])
+    tol = E.qc(float(case.get('tol', 0)))
+    if 'error' in r:
+        # the implementation raised on a valid input: the model (any oracle) must refuse as well; reported by prop anyway
+        return 'check_from_vector %s %s %s %s [] [] [] None []' % (E.nat(d), E.nat(L), vec, tol)
+    if _fv_ambiguous(case, r):
+        return None
+    if len(r['calls']) != L or len(r['steps']) != L or any(st['n_argsort'] > 1 for st in r['steps']):
+        return 'false'
+    rel = Fraction(1, 10 ** 9)
+
+    def mag(a):
+        a = np.asarray(a)
+        return Fraction(float(np.max(np.abs(a)))) if a.size else Fraction(0)
+    answers = E.lst([E.pair(_c(E.qimx(decf(c['M']))),
+                            '(%s, %s, %s)' % (_c(E.qimx(decf(c['u']))), E.lst([E.qc(float(x)) for x in c['s']]), _c(E.qimx(decf(c['vt'])))))
+                     for c in r['calls']])
+    sorts = E.lst([E.natlist(st['sort_idx']) for st in r['steps']])
+    # the first argument is a pure reshape of the input (exact); later ones went through `v * s[:, None]`
+    argtols = E.lst([E.qc(Fraction(0) if i == 0 else rel * mag(decf(c['M']))) for i, c in enumerate(r['calls'])])
+    A = [decf(a) for a in r['A']]
+    expect = '(Some (cmps %s %s %s))' % (E.zlist(r['qd']), E.lst([E.zlist(q) for q in r['qD']]),
+                                         E.lst([_c(E.site(a, E.qimx)) for a in A]))
+    # the tensors before the last are selections of entries of u (exact); the last one is multiplied by v[0, 0]
+    tols = E.lst([E.qc(Fraction(0) if i < L - 1 else rel * mag(a)) for i, a in enumerate(A)])
+    return 'check_from_vector %s %s %s %s %s %s %s %s %s' % (E.nat(d), E.nat(L), vec, tol, answers, sorts, argtols, expect, tols)
+
+
 def coq_diag(case, r):
     if case['kind'] in ('merge_mps', 'merge_mpo', 'split', 'from_vector'):
         return 'true'
@@ -938,7 +1085,13 @@ def klass(case, r):
         return 'split/%s/%s/%s/%s%s' % (case['distr'], 'complex' if case['cplx'] else 'real', case['mode'], sc(case.get('sexp', 0)),
                                         '/zero-tensor' if case.get('zero') else '')
     if kind == 'from_vector':
-        return 'from_vector/L%d/d%d/%s%s' % (case['L'], case['d'], sc(case.get('sexp', 0)), '/zero-vector' if case.get('zero') else '')
+        extra = ('/zero-vector' if case.get('zero') else '') + ('/' + case['shape'] if case.get('shape') else '')
+        if case.get('tol', 0):
+            kept = sum(r.get('bond_dims', []))
+            extra += '/tol>0/%s' % ('ambiguous' if ('error' not in r and 'steps' in r and _fv_ambiguous(case, r)) else
+                                   ('trunc' if 'steps' in r and any(len(st['idx']) < sum(1 for x in st['s'] if x != 0) for st in r['steps']) else 'full'))
+        rp = 'replay' if case['d'] ** case['L'] <= FV_REPLAY_MAX else 'impl-only'
+        return 'from_vector/L%d/d%d/%s%s/%s' % (case['L'], case['d'], sc(case.get('sexp', 0)), extra, rp)
     if kind.startswith('mixed:'):
         dts = case['dtypes']
         return '%s/L%s/%s' % (kind, case['L'] if case['L'] <= 2 else '3-5', '+'.join(dts['mpo'] + dts['mps']))
